@@ -571,3 +571,8 @@ where
         iterations,
     }
 }
+
+/// The printed string form of a schedule (the engine's own codec).
+pub fn serialize(s: &Schedule) -> String {
+    shuttle_engine::scheduler::serialization::serialize_schedule(s)
+}
